@@ -48,7 +48,8 @@ def run(ctx):
 AGREE_HOSTS = ["www.a.com", "WWW.A.COM", "a.com.", "www.a.com.", "m.a.co.uk.", "amp-www.a.com", "www.amp-x.com", "fr.a.com", "fr-FR.a.co.uk", "xn--caf-dma.fr", "caf\u00e9.fr", "b.a.co.uk", "a.com..", "mobile.a.com:8080", "127.0.0.1", "localhost"]
 
 
-AGREE_OPTION_URLS = ["https://www-a-com.cdn.ampproject.org/c/s/www.a.com/p.amp.html", "http://r.org/?url=http%3A%2F%2Fwww.a.com%2Fp", "http://amp.a.com/p", "http://amp-www.a.com/p", "http://www.a.com/p"]
+AGREE_OPTION_URLS = ["https://www-a-com.cdn.ampproject.org/c/s/www.a.com/p.amp.html", "http://r.org/?url=http%3A%2F%2Fwww.a.com%2Fp", "http://amp.a.com/p", "http://amp-www.a.com/p", "http://www.a.com/p",
+                     "http://R.ORG/?url=HTTP%3A%2F%2FWWW.A.COM%2Fx", "http://r.org/?url=Http://a.com/x", "http://xn--amp--epa.com/p", "http://r.org/?redirect%5Fto=http%3A%2F%2Fa.com"]
 
 
 def agreement_table(ctx, rule):
@@ -97,9 +98,15 @@ def agreement_table(ctx, rule):
                 n += 1
                 ctx.ob(rule, "get_normalized_hostname/%s/%s" % (url, ",".join(sorted(opts)) or "defaults"), got == want,
                        "get_normalized_hostname(%r%s) gives %r but the host of normalize_url with the same options is %r" % (url, "".join(", %s=%r" % kv for kv in sorted(opts.items())), got, want), site_n, witness=url)
+            for ss in (False, True):
+                want = host_of(TB.call_s(repo, "fingerprint_url", "fingerprint_url", url, strip_suffix=ss))
+                got = TB.call_s(repo, "fingerprint_url", "get_fingerprinted_hostname", url, strip_suffix=ss)
+                n += 1
+                ctx.ob(rule, "get_fingerprinted_hostname/%s/strip_suffix=%s" % (url, ss), got == want or (ss and (want in ("", None) or got in ("", None))),
+                       "get_fingerprinted_hostname(%r, strip_suffix=%s) gives %r but the host of fingerprint_url is %r" % (url, ss, got, want), site_f, witness=url)
     except Unknown as e:
         ctx.undecided(rule, "hostname helpers not interpretable: %s" % e)
-    ctx.require_instances(rule, n, 6 * len(AGREE_HOSTS) - 6 + 4 * len(AGREE_OPTION_URLS) - 2, "(helper, host) cells")
+    ctx.require_instances(rule, n, 6 * len(AGREE_HOSTS) - 6 + 6 * len(AGREE_OPTION_URLS) - 2, "(helper, host) cells")
 
 
 def host_helpers(ctx, rule, n):
@@ -125,9 +132,11 @@ def host_helpers(ctx, rule, n):
     ctx.ob(rule, "amp-prefix-vs-subdomain-order-agrees", bool(uh) and bool(hh), "normalize_url and normalize_hostname do not share the host helper: amp-www.example.com can get two different hosts", site, witness="http://amp-www.example.com/a")
     # punycode after the helper in both ('amp-' hides the 'xn--' header)
     for what, term in (("normalize_hostname", t), ("normalize_url", n.host)):
-        for dn in F.find_nodes(term, IDNA, data_only=True):
-            ctx.ob(rule, "%s/idna-after-host-helper" % what, bool(F.find_nodes(dn[2][0], NM.is_host_helper, data_only=True)) if dn[2] else False,
-                   "%s decodes punycode before the 'amp-' prefix is removed: amp-xn--caf-dma.fr keeps its punycode label" % what, site, witness="amp-xn--caf-dma.fr")
+        dns = F.find_nodes(term, IDNA, data_only=True)
+        ctx.ob(rule, "%s/idna-after-host-helper" % what, any(dn[2] and F.find_nodes(dn[2][0], NM.is_host_helper, data_only=True) for dn in dns),
+               "%s never decodes punycode after the 'amp-' prefix is removed: amp-xn--caf-dma.fr keeps its punycode label" % what, site, witness="amp-xn--caf-dma.fr")
+        ctx.ob(rule, "%s/idna-before-host-helper-too" % what, any(F.find_nodes(hc, IDNA, data_only=True) for hc in F.find_nodes(term, NM.is_host_helper, data_only=True)),
+               "%s never decodes punycode before the 'amp-' prefix is removed: xn--amp--epa.com (amp-\u00e9.com) keeps its prefix" % what, site, witness="xn--amp--epa.com")
     import json as _json
     from .c04 import SPEC as _SPEC4
     _spec = _json.load(open(_SPEC4))
